@@ -198,6 +198,11 @@ func projV2(d map[string]any) map[string]any {
 							for _, k := range []string{"title", "required", "readOnly"} {
 								delete(c, k)
 							}
+							if _, twice := form[pm["name"].(string)]; twice {
+								// a parameter is unique by name and location
+								dup, _ := po["duplicate_form_parameters"].([]any)
+								po["duplicate_form_parameters"] = append(dup, pm["name"])
+							}
 							form[pm["name"].(string)] = c
 							if r, _ := pm["required"].(bool); r {
 								formReq = append(formReq, pm["name"].(string))
@@ -773,7 +778,9 @@ func c17Random(r *Rng) C17Case {
 					}
 					params = append(params, bp)
 				} else if r.Chance(50) {
-					op["consumes"] = []any{"multipart/form-data"}
+					// form parameters travel under one form media type, or under either of the two
+					op["consumes"] = Pick(r, [][]any{{"multipart/form-data"}, {"multipart/form-data"}, {"application/x-www-form-urlencoded"},
+						{"application/x-www-form-urlencoded", "multipart/form-data"}, {"multipart/form-data", "application/x-www-form-urlencoded"}})
 					for _, fn := range []string{"f1", "f2"} {
 						if r.Chance(70) {
 							fp := c17Prim(r)
